@@ -170,12 +170,20 @@ func ruleC11Enc(r *Run) {
 			if have && enc {
 				nEnc++
 				c, isCall := v.(*ssa.Call)
-				if !isCall || calleeName(c) != "(*net/url.URL).EscapedPath" || !strings.HasSuffix(canon(c.Call.Args[0]), ".Req.URL") {
+				isURL := func(x ssa.Value) bool {
+					if strings.HasSuffix(canon(x), ".Req.URL") {
+						return true
+					}
+					fs, isReq := w.reqAccess(x)
+					return isReq && len(fs) == 1 && fs[0] == "URL"
+				}
+				if !isCall || calleeName(c) != "(*net/url.URL).EscapedPath" || !isURL(c.Call.Args[0]) {
 					okEnc = false
 				}
 			} else {
 				nDec++
-				if !strings.HasSuffix(cv, ".Req.URL.Path") {
+				fs, isReq := w.reqAccess(v)
+				if !strings.HasSuffix(cv, ".Req.URL.Path") && !(isReq && len(fs) == 2 && fs[0] == "URL" && fs[1] == "Path") {
 					okDec = false
 				}
 			}
@@ -387,15 +395,24 @@ func ruleC13Gate(r *Run) {
 	counterF := w.Field("rux", "Router", "counter")
 	// (1) validation dominates visibility
 	var visible []ssa.Instruction
+	tables := map[*types.Var]bool{}
 	eachInstr(ar, func(in ssa.Instruction) {
 		if mu, ok := in.(*ssa.MapUpdate); ok {
-			fv := unwrapAddr(mu.Map).lastField()
-			if fv == tm.stable || fv == tm.regular || fv == tm.irreg || fv == namedF {
+			hit := false
+			// the table may be selected through a local (table := r.irregularRoutes / r.regularRoutes)
+			for _, lf := range valueLeaves(mu.Map) {
+				fv := unwrapAddr(lf).lastField()
+				if fv == tm.stable || fv == tm.regular || fv == tm.irreg || fv == namedF {
+					tables[fv] = true
+					hit = true
+				}
+			}
+			if hit {
 				visible = append(visible, in)
 			}
 		}
 	})
-	r.Exists(rule, "(*Router).appendRoute:table inserts", ar.Pos(), len(visible) >= 4, fmt.Sprintf("%d inserts into route tables (3 tiers + name index)", len(visible)))
+	r.Exists(rule, "(*Router).appendRoute:table inserts", ar.Pos(), len(tables) >= 4, fmt.Sprintf("%d insert site(s) covering %d of the 4 tables (3 tiers + name index)", len(visible), len(tables)))
 	for i, v := range visible {
 		for gi, gname := range []string{"goodInfo", "appendGroupInfo"} {
 			ok := false
@@ -418,7 +435,13 @@ func ruleC13Gate(r *Run) {
 				map[bool]string{true: gname + " runs before the route becomes visible", false: "the route is inserted into a table before " + gname + " validated it"}[ok])
 		}
 		// dynamic tiers: the pattern is parsed/compiled first
-		if mu := v.(*ssa.MapUpdate); unwrapAddr(mu.Map).lastField() == tm.regular || unwrapAddr(mu.Map).lastField() == tm.irreg {
+		dyn := false
+		for _, lf := range valueLeaves(v.(*ssa.MapUpdate).Map) {
+			if fv := unwrapAddr(lf).lastField(); fv == tm.regular || fv == tm.irreg {
+				dyn = true
+			}
+		}
+		if dyn {
 			ok := false
 			for _, c := range callsToFn(ar, tm.parse) {
 				if dominates(c, v) {
@@ -457,6 +480,11 @@ func ruleC13Gate(r *Run) {
 					op = negOp(op)
 				}
 				return (op == token.LSS && k == 0) || (op == token.EQL && k == -1) || (op == token.LEQ && k == -1)
+			}
+			if c, isCall := cond.(*ssa.Call); isCall && !truth && calleeName(c) == "strings.ContainsAny" && subject(c.Call.Args[0]) {
+				if sv, oks := constString(c.Call.Args[1]); oks && strings.IndexByte(sv, ch) >= 0 {
+					return true
+				}
 			}
 			if c, isCall := cond.(*ssa.Call); isCall && !truth && (calleeName(c) == "strings.Contains" || calleeName(c) == "strings.ContainsRune") && subject(c.Call.Args[0]) {
 				if sv, oks := constString(c.Call.Args[1]); oks && sv == string(ch) {
@@ -629,6 +657,48 @@ func ruleC13Gate(r *Run) {
 }
 
 // flowsFrom: does v derive (through phi, concatenation, Replace, slices) from a value satisfying src?
+// flowsFromDeep is flowsFrom that also looks through loads, element/field addresses, tuple
+// extraction, interface wrapping and assertions, and the stores into local cells.
+func flowsFromDeep(v ssa.Value, src func(ssa.Value) bool) bool {
+	seen := map[ssa.Value]bool{}
+	var walk func(v ssa.Value, d int) bool
+	walk = func(v ssa.Value, d int) bool {
+		if v == nil || seen[v] || d > 80 {
+			return false
+		}
+		seen[v] = true
+		if src(v) {
+			return true
+		}
+		if al, ok := v.(*ssa.Alloc); ok {
+			for _, ref := range *al.Referrers() {
+				switch x := ref.(type) {
+				case *ssa.Store:
+					if x.Addr == ssa.Value(al) && walk(x.Val, d+1) {
+						return true
+					}
+				case *ssa.IndexAddr:
+					for _, r2 := range *x.Referrers() {
+						if st, ok := r2.(*ssa.Store); ok && st.Addr == ssa.Value(x) && walk(st.Val, d+1) {
+							return true
+						}
+					}
+				}
+			}
+			return false
+		}
+		if in, ok := v.(ssa.Instruction); ok {
+			for _, op := range in.Operands(nil) {
+				if op != nil && *op != nil && walk(*op, d+1) {
+					return true
+				}
+			}
+		}
+		return false
+	}
+	return walk(v, 0)
+}
+
 func flowsFrom(v ssa.Value, src func(ssa.Value) bool) bool {
 	seen := map[ssa.Value]bool{}
 	var walk func(v ssa.Value) bool
@@ -915,4 +985,93 @@ func pathStep(w *World, tm *tierModel) (*ssa.Function, []ssa.Instruction) {
 		gates = append(gates, st)
 	}
 	return ar, gates
+}
+
+// ---------------------------------------------------------------------------
+// C12-DERIVED — what registration derives from a route's path is derived from the FINAL path.
+//
+// appendRoute first rewrites route.path (group prefix + normalisation, the "path step") and then
+// classifies and compiles it. Any field of Route whose stored value depends on a load of
+// Route.path (a flag "is fixed", a compiled regexp, a literal prefix ...) must be computed after
+// the path step: a value computed earlier describes the route's own path, not the path it is
+// registered under — `/shops/{id}` + `/profile` would be filed as a static route.
+func ruleC12Derived(r *Run) {
+	w := r.W
+	rule := "C12-DERIVED"
+	r.Floor(rule, 2)
+	tm := newTierModel(w)
+	ar := tm.appendRoute
+	stepFn, gates := pathStep(w, tm)
+	routeT := w.Named("rux", "Route")
+	cg := w.BuildCG()
+	regFns := cg.Reach(ar)
+	n := 0
+	for _, f := range sortedFuncs(regFns) {
+		if !w.InModule(f) {
+			continue
+		}
+		eachInstr(f, func(in ssa.Instruction) {
+			st, ok := in.(*ssa.Store)
+			if !ok {
+				return
+			}
+			fa, isFA := st.Addr.(*ssa.FieldAddr)
+			if !isFA || !isNamedPtr(fa.X.Type(), routeT) {
+				return
+			}
+			fv := fieldVar(fa.X.Type(), fa.Field)
+			if fv == tm.path {
+				return
+			}
+			if !flowsFromDeep(st.Val, func(x ssa.Value) bool { return isLoadOfField(x, tm.path) }) {
+				return
+			}
+			n++
+			// where does this computation run relative to the path step?
+			okLate := false
+			why := ""
+			switch {
+			case f == stepFn && f != ar:
+				okLate, why = true, "computed inside the path step itself"
+			case f == ar:
+				for _, g := range gates {
+					if dominates(g, in) {
+						okLate = true
+					}
+				}
+				why = "the path step dominates the computation in appendRoute"
+			default:
+				// f is called (transitively) from appendRoute: every entry from appendRoute lies after the path step
+				okLate = true
+				found := false
+				eachInstr(ar, func(ci ssa.Instruction) {
+					c, isCall := ci.(*ssa.Call)
+					if !isCall {
+						return
+					}
+					sc := staticCallee(c)
+					if sc == nil || !(sc == f || cg.Reach(sc)[f]) || sc == stepFn {
+						return
+					}
+					found = true
+					after := false
+					for _, g := range gates {
+						if dominates(g, ci) {
+							after = true
+						}
+					}
+					if !after {
+						okLate = false
+					}
+				})
+				if !found {
+					okLate = true // reached only through the path step itself
+				}
+				why = "every call from appendRoute that reaches " + FuncName(f) + " comes after the path step"
+			}
+			r.Check(rule, fmt.Sprintf("%s:store Route.%s derived from the path", FuncName(f), fv.Name()), w.InstrPos(in), okLate,
+				map[bool]string{true: why, false: "Route." + fv.Name() + " is computed from route.path before appendRoute has put the group prefix in front of it and normalised it: it describes the route's own path, not the registered one (a literal route inside a group with a variable prefix is misfiled)"}[okLate])
+		})
+	}
+	r.Exists(rule, "derived stores", ar.Pos(), n >= 2, fmt.Sprintf("%d store(s) into Route fields that depend on route.path, in the functions reachable from appendRoute", n))
 }
